@@ -90,11 +90,6 @@ Proof.
     rewrite seq_nth by assumption. f_equal. lia.
 Qed.
 
-Definition in_win (reverse : bool) (R p q : nat) : bool :=
-  if reverse then (p <=? q + R) && (q <? p) else (p <? q) && (q <=? p + R).
-
-Definition dist (p q : nat) : nat := if p <=? q then q - p else p - q.
-
 Lemma win_positions_In : forall reverse R p L q, p < L ->
   In q (win_positions reverse R p L) <-> q < L /\ in_win reverse R p q = true.
 Proof.
@@ -188,9 +183,6 @@ Proof.
   - rewrite Nat.sub_0_r. reflexivity.
   - destruct l; [simpl; destruct (j - S k); destruct j; reflexivity|]. destruct j; [lia|]. simpl. apply IHk. lia.
 Qed.
-
-Definition is_mask (mask : option nat) (t : nat) : bool :=
-  match mask with Some m => Nat.eqb t m | None => false end.
 
 (* the un-normalised kernel value of slot j depends only on j, on whether the slot's token is the mask, and
    on the slot's base weight *)
